@@ -60,13 +60,16 @@ class Translator:
         seen, todo = [], list(roots)
         while todo:
             f = todo.pop()
-            if f in seen or f not in self.m.funcs:
+            if f in seen or f not in self.m.funcs or f in self.spec.get('replace', {}):
                 continue
             seen.append(f)
             for b in self.m.funcs[f].blocks:
                 for ins in b.insts:
                     for g in re.findall(r'@("[^"]+"|[\w.$-]+)', ins):
                         g = g.strip('"')
+                        rep = self.spec.get('replace', {}).get(g)
+                        if rep and rep.startswith('f_'):
+                            g = rep[2:]       # a replaced callee: control continues in the replacement
                         if g in self.m.funcs and g not in seen:
                             todo.append(g)
                         elif g in self.m.globals and self.m.globals[g]['init']:
@@ -127,6 +130,10 @@ class Translator:
         for f in funcs:
             if f not in self.fn_ids:
                 self.fn_ids[f] = (0xF0000 + len(self.fn_ids)) << 4
+        # errno: one cell per kernel thread
+        nk = self.spec.get('kthreads', 1)
+        self.errno_obj = self.new_obj('@__errno', 8 * nk, ('int', 32), 'tls', init=None, arr=True)
+        self.errno_obj.tls_stride = 8
 
     def fn_addr(self, name):
         if name in self.fn_ids:
@@ -226,7 +233,10 @@ class Translator:
         return False
 
     def add_site(self, key, f, kind, ty, arr, res):
-        hint = self.spec.get('site_types', {}).get(key)
+        hint = None
+        for rx, h in self.spec.get('site_types', {}).items():
+            if re.search(rx + '$', key):
+                hint = h
         if hint:
             ty, _ = self.T.parse(hint)
         s = dict(key=key, fn=f, kind=kind, ty=ty, arr=arr, res=res, id=len(self.sites))
@@ -334,6 +344,8 @@ class Translator:
                     vr = T.resolve(v)
                     if vr[0] != 'lit':
                         continue
+                    if v is not t and not self.has_flex(v) and real + T.size_align(v)[0] > limit:
+                        continue      # a punned view that does not fit into the object is a value cast, not a memory view
                     vname = v[1] if v[0] == 'named' else 'lit:' + tstr(v)
                     for i in range(len(vr[1])):
                         fo, ft = T.field(v, i)
@@ -350,7 +362,10 @@ class Translator:
             elif r[0] == 'opaque':
                 return
             else:
-                mark(real, chain + [('arr:' + tstr(t), 0)])
+                extra = [('arr:' + tstr(t), 0)]
+                if r[0] == 'ptr':
+                    extra.append(('arr:ptr', 0))      # any pointer-typed slot (pointer types are punned freely, e.g. void** handles)
+                mark(real, chain + extra)
 
         ty = o.ty
         r = T.resolve(ty)
@@ -595,6 +610,21 @@ class Translator:
             s = self.site_by_key.get((fname, opnd))
             if s:
                 return {('site', s['id'])}
+        # load of a pointer from a struct field whose every store is known: the stored values' signatures
+        if op == 'load' and getattr(self, 'M', None) is not None and not self.M_bad and self.struct_ptr_sig(ptr_ty) is None:
+            mm = re.match(r'load (?:atomic )?(?:volatile )?([^,]+), (.*?)(?: syncscope\("[^"]*"\))?(?: (?:seq_cst|acquire|monotonic|unordered))?, align', d)
+            if mm:
+                try:
+                    lt, lv, _ = self.m.parse_tv(mm.group(2))
+                    loc = self.addr_sig(fname, lt, lv, seen, depth + 1)
+                except Exception:
+                    loc = None
+                if loc and all(l[0] not in ('obj', 'site', 'priv') for l in loc) and all(l in self.M and self.M[l] is not None for l in loc):
+                    res = set()
+                    for l in loc:
+                        res |= self.M[l]
+                    if res:
+                        return res
         # load / call / inttoptr ...: fall back on the static pointee type
         st = self.struct_ptr_sig(ptr_ty)
         if st is None and op == 'load':
@@ -621,7 +651,7 @@ class Translator:
             if r[0] == 'ptr':
                 # pointer to a pointer-typed slot of type T*: points into a location whose leaf type is T*.
                 # (not for iN*: clang puns pointer slots to i64* for atomic accesses)
-                return {('arr:' + tstr(p), 0)}
+                return {('arr:ptr', 0)} if tstr(p) in ('i8*',) else {('arr:' + tstr(p), 0), ('arr:ptr', 0)} if False else ({('arr:ptr', 0)} if tstr(p) == 'i8*' else {('arr:' + tstr(p), 0)})
         return None
 
     def sig_of_expr(self, fname, op, inner, seen, depth):
@@ -704,6 +734,40 @@ class Translator:
                 for cf, args in self.indirect_calls:
                     if len(args) == len(ptys) and all(a[0] == b for a, b in zip(args, ptys)):
                         self.callers.setdefault(f, []).append((cf, args))
+
+    def build_store_map(self, funcs):
+        """M[(struct, off)] = signatures of the pointer values stored into that field anywhere in the module, or None if some
+        store of a pointer value could not be attributed (then the map is not used for that field)"""
+        self.M = {}
+        self.M_bad = False
+        for f in funcs:
+            fn = self.m.funcs[f]
+            for b in fn.blocks:
+                for ins in b.insts:
+                    if not ins.startswith('store '):
+                        continue
+                    body = re.sub(r'^store (atomic )?(volatile )?', '', ins)
+                    body = re.sub(r'( syncscope\("[^"]*"\))?( (seq_cst|acquire|release|monotonic|unordered|acq_rel))?, align \d+$', '', body)
+                    try:
+                        vt, vv, k = self.m.parse_tv(body)
+                        pt, pv, _ = self.m.parse_tv(body[k:].lstrip(', '))
+                    except Exception:
+                        self.M_bad = True
+                        continue
+                    if self.T.resolve(vt)[0] != 'ptr':
+                        continue
+                    loc = self.addr_sig(f, pt, pv)
+                    val = self.addr_sig(f, vt, vv) if vv.strip() not in ('null', 'undef') else set()
+                    if loc is None:
+                        self.M_bad = True      # a pointer stored through an unknown address: it may land in any field
+                        continue
+                    for l in loc:
+                        if l[0] in ('obj', 'site', 'priv'):
+                            continue       # exact objects: not tracked per field; see lookup
+                        if val is None:
+                            self.M[l] = None
+                        elif self.M.get(l, set()) is not None:
+                            self.M.setdefault(l, set()).update(val)
 
     def site_set(self, fname, ptr_ty, opnd, kind='rw'):
         """candidate-set id for an access through `opnd`"""
@@ -803,7 +867,7 @@ def classify_cells(tr, funcs):
                 freeable.add(o.oid)
     for o in tr.objs:
         if o.kind == 'heap':
-            o.dies = o.oid in freeable
+            o.dies = o.oid in freeable and not tr.spec.get('no_free')
     cls = {}
     for o in tr.objs:
         for c in range(o.ncells):
